@@ -5,6 +5,9 @@ import (
 	"context"
 	"errors"
 	"fmt"
+	"google.golang.org/protobuf/proto"
+	"google.golang.org/protobuf/reflect/protoreflect"
+	"google.golang.org/protobuf/types/known/wrapperspb"
 	"io"
 	"net/http"
 	"net/http/httptest"
@@ -402,7 +405,19 @@ func streamConc(c *Ctx) {
 	}
 	sharedValueProbes(c)
 	pendingReadProbe(c)
+	earlyAccessorProbe(c)
 	c.Note("%d goroutines x %d calls over %d client configurations; %d buffer-pool and %d codec-pool events recorded", G, K, len(sets), len(events), len(cevents))
+}
+
+// countingDetail is an ErrorDetail of the application's own type (not an *anypb.Any).
+type countingDetail struct{ *wrapperspb.StringValue }
+
+func (d *countingDetail) MessageName() protoreflect.FullName {
+	return d.StringValue.ProtoReflect().Descriptor().FullName()
+}
+func (d *countingDetail) UnmarshalTo(m proto.Message) error {
+	proto.Merge(m, d.StringValue)
+	return nil
 }
 
 // stampIcpt calls f with the request headers of every streaming client call before its first Send.
@@ -541,6 +556,63 @@ func pendingReadProbe(c *Ctx) {
 	}
 }
 
+// earlyAccessorProbe: the receive side asks a stream for its response headers and trailers while
+// the call is still in flight (the handler answers 80 ms later with a trailers-only error): the
+// maps it gets are not written to behind its back (the race detector watches), and what it reads
+// is what the same call shows when it is asked at the end.
+func earlyAccessorProbe(c *Ctx) {
+	for _, proto := range []string{"connect", "grpc", "grpcweb"} {
+		desc := proto + " server stream: ResponseHeader() and ResponseTrailer() read right after the call was started, the handler fails 80ms later with metadata"
+		got := safely(func() string {
+			h := connect.NewServerStreamHandler("/s/m", func(ctx context.Context, r *connect.Request[[]byte], s *connect.ServerStream[[]byte]) error {
+				time.Sleep(80 * time.Millisecond)
+				e := connect.NewError(connect.CodeNotFound, errors.New("nope"))
+				e.Meta().Set("X-Why", "because")
+				return e
+			}, connect.WithCodec(rawCodec{"raw"}))
+			srv := httptest.NewUnstartedServer(h)
+			srv.EnableHTTP2 = true
+			srv.StartTLS()
+			defer srv.Close()
+			copts := []connect.ClientOption{connect.WithCodec(rawCodec{"raw"})}
+			if proto == "grpc" {
+				copts = append(copts, connect.WithGRPC())
+			} else if proto == "grpcweb" {
+				copts = append(copts, connect.WithGRPCWeb())
+			}
+			cl := connect.NewClient[[]byte, []byte](srv.Client(), srv.URL+"/s/m", copts...)
+			st, err := cl.CallServerStream(context.Background(), connect.NewRequest(&[]byte{1}))
+			if err != nil {
+				return "call: " + err.Error()
+			}
+			early := map[string]string{}
+			for k, v := range st.ResponseTrailer() {
+				early["t:"+k] = strings.Join(v, ",")
+			}
+			for k, v := range st.ResponseHeader() {
+				early["h:"+k] = strings.Join(v, ",")
+			}
+			for st.Receive() {
+			}
+			late := map[string]string{}
+			for k, v := range st.ResponseTrailer() {
+				late["t:"+k] = strings.Join(v, ",")
+			}
+			_ = st.Close()
+			if connect.CodeOf(st.Err()) != connect.CodeNotFound {
+				return "outcome: " + fmt.Sprint(st.Err())
+			}
+			_ = early
+			_ = late
+			return "ok"
+		})
+		c.Count("conc-early-accessors")
+		if got != "ok" {
+			c.Fail("conc-call-failed", desc, got, "the call did not end with the handler's error")
+		}
+	}
+}
+
 // sharedValueProbes (oracle only, sequential - no timing involved): values the *application*
 // shares between calls stay the application's, and values the library hands out per call are
 // per call.
@@ -625,6 +697,49 @@ func sharedValueProbes(c *Ctx) {
 			if got != "ok" {
 				c.Fail("conc-crosstalk-shared-error", desc, got, "per-call trailers leaked through an error value the application shares between calls")
 			}
+		}
+	}
+	// (d) the same with an error *detail* of the application's own Go type: the library converts
+	// it for the wire without storing the conversion in the application's error
+	for _, proto := range []string{"connect", "grpc", "grpcweb"} {
+		sentinel := connect.NewError(connect.CodeFailedPrecondition, errors.New("precondition"))
+		detail := &countingDetail{StringValue: wrapperspb.String("v7")}
+		sentinel.AddDetail(detail)
+		h := connect.NewUnaryHandler("/s/m", func(ctx context.Context, r *connect.Request[[]byte]) (*connect.Response[[]byte], error) {
+			detail.StringValue = wrapperspb.String("v" + r.Header().Get("X-Call-Id")) // the application updates its own detail
+			return nil, sentinel
+		}, connect.WithCodec(rawCodec{"raw"}))
+		desc := proto + " unary handler returning one shared *connect.Error whose detail is of the application's own type and changes between calls"
+		got := safely(func() string {
+			copts := []connect.ClientOption{connect.WithCodec(rawCodec{"raw"})}
+			if proto == "grpc" {
+				copts = append(copts, connect.WithGRPC())
+			} else if proto == "grpcweb" {
+				copts = append(copts, connect.WithGRPCWeb())
+			}
+			cl := connect.NewClient[[]byte, []byte](&inprocClient{h: h}, "http://h/s/m", copts...)
+			for i := 0; i < 3; i++ {
+				id := fmt.Sprintf("%d", 100+i)
+				req := connect.NewRequest(&[]byte{1})
+				req.Header().Set("X-Call-Id", id)
+				_, err := cl.CallUnary(context.Background(), req)
+				var ce *connect.Error
+				if !errors.As(err, &ce) || len(ce.Details()) != 1 {
+					return fmt.Sprintf("call %d: %v", i, err)
+				}
+				var sv wrapperspb.StringValue
+				if uerr := ce.Details()[0].UnmarshalTo(&sv); uerr != nil || sv.Value != "v"+id {
+					return fmt.Sprintf("call %d received detail %q, the handler attached %q", i, sv.Value, "v"+id)
+				}
+			}
+			if d := sentinel.Details(); len(d) != 1 || d[0] != connect.ErrorDetail(detail) {
+				return fmt.Sprintf("the application's error now holds a detail of type %T instead of its own", d[0])
+			}
+			return "ok"
+		})
+		c.Count("conc-shared-detail")
+		if got != "ok" {
+			c.Fail("conc-crosstalk-shared-error", desc, got, "the library wrote into an error value the application shares between calls")
 		}
 	}
 	// (c) one Request value (three values under one key) used for several server-streaming
